@@ -135,14 +135,17 @@ def build(kind, layout, injection, trace):
         raise Boom('f exception')
         yield n
 
+    # one list of managers handed to both methods (what a helper that decorates several methods does)
+    shared_mgrs = [method_mgr]
+
     class Svc(*bases):
         if inj.startswith('genfunction'):
             from spyne import Iterable
-            f = rpc(Integer, _returns=Iterable(Integer), _evmgr=method_mgr)(body_gen)
+            f = rpc(Integer, _returns=Iterable(Integer), _evmgrs=shared_mgrs)(body_gen)
         else:
-            f = rpc(Integer, _returns=Integer, _evmgr=method_mgr)(body)
+            f = rpc(Integer, _returns=Integer, _evmgrs=shared_mgrs)(body)
 
-        @rpc(Integer, _returns=Integer)
+        @rpc(Integer, _returns=Integer, _evmgrs=shared_mgrs)
         def g(ctx, n):
             trace.add('USER', 'enter-other', None)
             return n
